@@ -112,10 +112,10 @@ class St:
         return St(self.env, self.facts, self.aut, self.path)
 
     def akey(self):
-        return tuple(sorted((k, repr(v)) for k, v in self.aut.items()))
+        return frozenset(self.aut.items())
 
     def key(self):
-        return (self.akey(), tuple(sorted(self.env.items())), tuple(sorted(self.facts)))
+        return (frozenset(self.aut.items()), frozenset(self.env.items()), frozenset(self.facts))
 
     def step(self, line, what):
         p = self.path
@@ -506,8 +506,8 @@ class Interp:
             return out
         g2 = collections.OrderedDict()
         for st in out:
-            k = (st.akey(), tuple(sorted((k, v) for k, v in st.env.items() if k in self.TRACK)),
-                 tuple(sorted(f for f in st.facts if self.track_facts.search(f[0]))) if self.track_facts is not None else ())
+            k = (st.akey(), frozenset((k, v) for k, v in st.env.items() if k in self.TRACK),
+                 frozenset(f for f in st.facts if self.track_facts.search(f[0])) if self.track_facts is not None else ())
             if k in g2:
                 m = g2[k]
                 m.facts &= st.facts
